@@ -24,14 +24,14 @@ ASANLOG = os.path.join(VERIF, "build", "sanlogs")
 # property -> parts.  A part is (scenario, variant, workers, chunk, extra args)
 PROPS = {
     "C08": dict(level="exploration", design="4.1",
-                parts=[("honest", "plain", 12, 100, []), ("honest", "asan", 4, 25, [])],
-                quick_s=70, thorough_s=900, quick_max=40000, thorough_max=2000000,
+                parts=[("honest", "plain", 12, 50, []), ("honest", "asan", 4, 12, [])],
+                quick_s=55, thorough_s=900, quick_max=40000, thorough_max=2000000,
                 rule="one run = one simulated client/server connection (handshake, 1..12 data rounds, orderly close) "
                      "generated from H(VERIF_SEED, scenario, index); non-trivial = at least 3 context switches between "
                      "the endpoint tasks; distinct = distinct interleaving ids (hash of the sequence of (step, from-task, to-task) switches)"),
     "C10": dict(level="fault_enumeration", design="4.3", memclass="foreign", cell_keys=["proto", "mutual", "kind", "dir"],
-                parts=[("mitm-hs", "plain", 12, 240, []), ("mitm-hs", "asan", 4, 48, [])],
-                quick_s=70, thorough_s=900, quick_max=200000, thorough_max=4000000,
+                parts=[("mitm-hs", "plain", 12, 120, []), ("mitm-hs", "asan", 4, 24, [])],
+                quick_s=55, thorough_s=900, quick_max=200000, thorough_max=4000000,
                 expect_probes=["fault_fired"],
                 rule="one run = one honest client/server connection behind a record-aware interposer executing an explicit fault plan "
                      "(single fault; thorough: 10% two-fault plans) drawn from the record layout of the run's fault-free twin: bit flips over "
@@ -39,16 +39,16 @@ PROPS = {
                      "peer crash at a byte offset; non-trivial = the fault really fired on a record that passed the interposer and the twin passed the "
                      "honest oracle; distinct = distinct (config, fault kind, direction, record, offset, bit, args) ids"),
     "C11": dict(level="fault_enumeration", design="4.4", memclass="foreign", cell_keys=["proto", "kind", "region"],
-                parts=[("mitm-data", "plain", 12, 240, []), ("mitm-data", "asan", 4, 48, [])],
-                quick_s=70, thorough_s=900, quick_max=200000, thorough_max=4000000,
+                parts=[("mitm-data", "plain", 12, 120, []), ("mitm-data", "asan", 4, 24, [])],
+                quick_s=55, thorough_s=900, quick_max=200000, thorough_max=4000000,
                 expect_probes=["fault_fired"],
                 rule="one run = handshake plus 1..5 data rounds behind the interposer; the fault targets an application-data record of the live "
                      "connection: bit flip (stratified over header, IV, body, MAC/padding/tag region, last byte), truncate/extend by 1..32 bytes with and "
                      "without header fix-up, duplicate, replay of an earlier record, swap, drop, forged record; non-trivial = fault fired and twin passed; "
                      "distinct = distinct (config, kind, direction, record, offset, bit, args) ids"),
     "C09": dict(level="fault_enumeration", design="4.2", memclass="foreign", cell_keys=["proto", "defect", "role"],
-                parts=[("auth", "plain", 12, 100, []), ("auth", "asan", 4, 25, [])],
-                quick_s=75, thorough_s=900, quick_max=100000, thorough_max=2000000,
+                parts=[("auth", "plain", 12, 50, []), ("auth", "asan", 4, 12, [])],
+                quick_s=55, thorough_s=900, quick_max=100000, thorough_max=2000000,
                 rule="one run = a defect-free twin connection (must pass the honest oracle) followed by the same connection with exactly one "
                      "credential/message defect on the proving side: foreign root (same/other name), expired / not-yet-valid leaf or intermediate "
                      "(boundary +-1 s .. 400 d), verifier clock ahead/behind/jumping, issuer with cA=FALSE / without basicConstraints / without "
@@ -57,8 +57,8 @@ PROPS = {
                      "certificate, client Certificate / CertificateVerify removed or emptied in flight; x 3 protocols x verifying role x chain depth; "
                      "non-trivial = the defect was really in effect; distinct = distinct (protocol, defect, role, depth, mutual, defect argument) ids"),
     "C18": dict(level="fault_enumeration", design="4.6", cell_keys=["mode", "op", "proto", "node"],
-                parts=[("entropy", "plain", 12, 200, []), ("entropy", "asan", 4, 40, [])],
-                quick_s=75, thorough_s=900, quick_max=200000, thorough_max=4000000,
+                parts=[("entropy", "plain", 12, 80, []), ("entropy", "asan", 4, 20, [])],
+                quick_s=55, thorough_s=900, quick_max=200000, thorough_max=4000000,
                 rule="one run = either a complete handshake (+ data) in which the entropy source of one endpoint fails at its i-th draw "
                      "(this draw only, or this and all later ones) or returns up to 3 degenerate all-0x00/0xFF draws, or a single randomised API "
                      "operation (23 operations: SM2 keygen/sign/encrypt/ECDH incl. reused contexts, PKCS#8, X.509 cert/req/CRL signing, CMS "
@@ -67,9 +67,9 @@ PROPS = {
                      "operations on one stream; the fault index is drawn from the draw count of the fault-free twin; non-trivial = the injected entropy "
                      "fault really fired (or the pair/history was executed); distinct = distinct (operation or protocol/role, mode, draw index, args) ids"),
     "C19": dict(level="exploration", design="4.7", leak=True, memclass="foreign",
-                parts=[("honest", "plain", 4, 100, ["--leak"]), ("mitm-hs", "plain", 3, 240, ["--leak"]), ("mitm-data", "plain", 2, 240, ["--leak"]),
-                       ("auth", "plain", 2, 100, ["--leak"]), ("entropy", "plain", 2, 200, ["--leak"]), ("ops", "plain", 3, 200, ["--leak"])],
-                quick_s=75, thorough_s=900, quick_max=200000, thorough_max=4000000,
+                parts=[("honest", "plain", 4, 50, ["--leak"]), ("mitm-hs", "plain", 3, 120, ["--leak"]), ("mitm-data", "plain", 2, 120, ["--leak"]),
+                       ("auth", "plain", 2, 50, ["--leak"]), ("entropy", "plain", 2, 80, ["--leak"]), ("ops", "plain", 3, 200, ["--leak"])],
+                quick_s=55, thorough_s=900, quick_max=200000, thorough_max=4000000,
                 rule="one run = one run of the honest / mitm-hs / mitm-data / auth / entropy scenarios (success and the many failure paths that "
                      "faults open) or one sequence of 3..14 single-node secret-handling operations (key generation, private-key DER/PEM/PKCS#8 "
                      "import with right and wrong password or damaged input, sign, decrypt with right/wrong key, ECDH, CMS open, record "
@@ -79,8 +79,8 @@ PROPS = {
                      "ECDHE shared secret, received plaintext), raw and as hex with separators removed; non-trivial = the run executed library code "
                      "that handles secrets (every run does); distinct = distinct interleaving / fault / operation-sequence ids"),
     "C06": dict(level="exploration", design="4.5", memclass="only", cell_keys=["proto", "victim", "rec"],
-                parts=[("byz", "asan", 10, 32, []), ("mitm-hs", "asan", 3, 48, []), ("mitm-data", "asan", 2, 48, []), ("auth", "asan", 1, 25, [])],
-                quick_s=75, thorough_s=1200, quick_max=200000, thorough_max=4000000,
+                parts=[("byz", "asan", 10, 32, []), ("mitm-hs", "asan", 3, 24, []), ("mitm-data", "asan", 2, 24, []), ("auth", "asan", 1, 12, [])],
+                quick_s=55, thorough_s=1200, quick_max=200000, thorough_max=4000000,
                 rule="scope: every byte stream a TLS/TLCP/TLS 1.3 client or server receives from its peer. One run = a real victim endpoint "
                      "and its real peer with the interposer acting as byzantine peer: 1..3 handshake records of one direction rewritten by seeded "
                      "structure-aware mutators (vector length sweep, truncation/extension, session id 0..255, ClientHello without extensions, odd "
@@ -90,9 +90,20 @@ PROPS = {
                      "auth scenarios. All under ASan + UBSan(bounds, pointer-overflow, null, object-size); oracle = no sanitizer report, no abort, no "
                      "hang (CPU watchdog, runaway-output trip), TLS_CONNECT state integrity, lengths within capacity. non-trivial = a mutation/fault "
                      "really reached the victim; distinct = distinct (protocol, victim, record, mutation seed) ids"),
+    "C20": dict(level="exploration", design="4.8",
+                parts=[("threads", "asan-if", 8, 2, []), ("threads", "tsan-if", 8, 2, [])],
+                quick_s=55, thorough_s=900, quick_max=100000, thorough_max=2000000,
+                rule="one run = 2..16 tasks (quick: 2..6), each with private objects, a private entropy stream and clock, running a script of "
+                     "2..9 operations drawn from SM3/HMAC/digest, SM4 CBC/CTR/GCM, ZUC, SM2 keygen/sign/verify/encrypt/decrypt/ECDH, DER key "
+                     "round trips, X.509 issue+verify, CMS sign/verify, TLS CBC and GCM record protection, PBKDF2, SM9 sign/verify, and 0..2 complete "
+                     "handshake+data connections (two tasks each); library code is preempted at function entries (-finstrument-functions) by the seeded "
+                     "scheduler, countdown mean 8..3000 calls or PCT with 1..3 priority change points; each run is executed twice, without and with "
+                     "preemption, and every task's result log must be identical (asan-if build); in the tsan-if build tasks are real threads handed a "
+                     "futex baton ThreadSanitizer cannot see, so conflicting accesses to library state are reported although serialised; "
+                     "non-trivial = at least one preemption inside library code; distinct = distinct interleaving ids"),
 }
 
-ALL_VARIANTS = ["plain", "asan"]
+ALL_VARIANTS = ["plain", "asan", "asan-if", "tsan-if"]
 MEMCLASSES = ("hang:", "memerr:", "crash:", "state_corrupt", "no_termination")
 
 KV = re.compile(r'(\w+)=("([^"]*)"|\S+)')
@@ -111,7 +122,7 @@ def san_env(tag):
     lp = os.path.join(ASANLOG, tag)
     env["ASAN_OPTIONS"] = f"log_path={lp}:exitcode=77:detect_leaks=0:abort_on_error=0"
     env["UBSAN_OPTIONS"] = f"log_path={lp}:halt_on_error=1:exitcode=77:print_stacktrace=1"
-    env["TSAN_OPTIONS"] = f"log_path={lp}:exitcode=66:halt_on_error=0:report_signal_unsafe=0"
+    env["TSAN_OPTIONS"] = f"log_path={lp}:exitcode=66:halt_on_error=1:report_signal_unsafe=0:suppress_equal_stacks=0:suppress_equal_addresses=0:history_size=4"
     env["MSAN_OPTIONS"] = f"log_path={lp}:exitcode=77"
     return env, lp
 
@@ -123,6 +134,15 @@ def classify_sanlog(lp, pid):
         return None, ""
     txt = open(path, errors="replace").read()
     kind = "unknown"
+    if "WARNING: ThreadSanitizer: data race" in txt:
+        fm = re.search(r"#0 (\w+) (/repo/[^\s:]+)", txt)
+        loc = re.search(r"Location is global '([^']+)'", txt)
+        func = fm.group(1) if fm else "?"
+        try:
+            os.unlink(path)
+        except OSError:
+            pass
+        return f"race:{loc.group(1) if loc else 'heap-or-stack'}@{func}", txt[:3000]
     m = re.search(r"ERROR: (?:Address|Memory|Thread|Leak)Sanitizer: ([\w-]+)", txt)
     if m:
         kind = m.group(1)
